@@ -52,4 +52,11 @@ def main(argv):
 
     print("check: property=%s tier=%s VERIF_SEED=%d graphslam=%s" % (args.property, tier, seed, os.path.dirname(graphslam.__file__)))
     sys.stdout.flush()
-    return runner.run_check(table[args.property], tier, seed, jobs=args.jobs, runs=args.runs, budget_s=args.budget)
+    try:
+        return runner.run_check(table[args.property], tier, seed, jobs=args.jobs, runs=args.runs, budget_s=args.budget)
+    except Exception:  # an exception of the harness itself is never a pass and never a violation
+        import traceback
+
+        traceback.print_exc()
+        print("HARNESS-ERROR: uncaught exception in the runner; not a pass")
+        return 2
